@@ -99,7 +99,7 @@ type c07Der struct {
 	Funded bool   `json:"funded"`
 	Nonce  uint64 `json:"nonce"`
 	Exec   string `json:"exec"`   // ok | vmerr | msgerr  (what the action does once executed)
-	Create bool   `json:"create"` // deploys a contract when executed successfully
+	Create bool   `json:"create"` // contract creation (To == nil): deploys a contract when executed successfully
 	VBOk   bool   `json:"vbok"`   // the message passes its stateless ValidateBasic (pure function of the message)
 	Touch  []int  `json:"touch"`  // scenario accounts (canonical ids) the execution pays when it runs to completion
 }
@@ -443,7 +443,9 @@ func execClass(act string) (string, bool) {
 	switch act {
 	case "lowgas":
 		return "msgerr", false
-	case "call_revert", "create_revert", "create_oog", "fwd_revert":
+	case "create_revert", "create_oog":
+		return "vmerr", true
+	case "call_revert", "fwd_revert":
 		return "vmerr", false
 	case "create_ok", "create_val":
 		return "ok", true
@@ -683,7 +685,7 @@ func (w *c07World) runCase(t *testing.T, blocks [][]c07Tx) ([][][]c07Der, [][]c0
 						continue
 					}
 					if sm.value.Cmp(remaining[sm.addr]) > 0 {
-						td[i].Exec, td[i].Create = "vmerr", false
+						td[i].Exec = "vmerr"
 					} else {
 						remaining[sm.addr].Sub(remaining[sm.addr], sm.value)
 						if rem, tracked := remaining[sm.cp]; sm.pays && tracked { // paid to a signer of this tx (or to itself)
